@@ -13,9 +13,9 @@ open NauyacaVerif.Drv Fs
                                     protocol's content slicing (`pending` = not dispatched)
   tree    ::= entries separated by ';' : f:<path>:<id> | d:<path> | l:<path>:<target>   (as `static`);
               the upload directory is `uploads` directly under the tree's root
-  cfg     ::= <max>;<types>;<tokens>;<delete 0|1>;<pid>      types/tokens ::= N | E | cps|cps|…
-  fault   ::= - | mkdir:<n> | write:<k> | rename | unlink
-  effects ::= - | e;e;…   e ::= mk:<path> | wt:<path>:<hex>:<ok> | rn:<src>:<dst>:<ok> | ul:<path>:<ok>
+  cfg     ::= <max>;<types>;<tokens>;<delete 0|1>;<tag>      types/tokens ::= N | E | cps|cps|…
+  fault   ::= - | mkdir:<n> | open | write:<k> | rename | unlink
+  effects ::= - | e;e;…   e ::= mk:<path> | wt:<path>:<hex>:<ok> | rn:<src>:<dst>:<ok> | ul:<path>:<ok> | rd:<path>
               (paths as the code points of the slash-joined components) -/
 
 def comps (s : String) : Path := if s == "" then [] else s.splitOn "/"
@@ -35,15 +35,16 @@ def parseList (s : String) : Option (List String) :=
 
 def parseCfg (s : String) : Option UCfg :=
   match s.splitOn ";" with
-  | [mx, types, tokens, del, pid] =>
+  | [mx, types, tokens, del, tag] =>
     some { dir := ["uploads"], maxSize := mx.toNat!, allowedTypes := parseList types,
-           tokens := (parseList tokens).getD [], enableDelete := del == "1", pid := pid }
+           tokens := (parseList tokens).getD [], enableDelete := del == "1", tag := tag }
   | _ => none
 
 def parseFault (s : String) : Option Faults :=
   match s.splitOn ":" with
   | ["-"] => some {}
   | ["mkdir", n] => some { mkdirFailAt := some n.toNat! }
+  | ["open"] => some { openOk := false }
   | ["write", k] => some { writeFailAfter := some k.toNat! }
   | ["rename"] => some { renameOk := false }
   | ["unlink"] => some { unlinkOk := false }
@@ -59,6 +60,7 @@ def showEffect : Effect → String
   | .writeTemp p b ok => s!"wt:{showPath p}:{toHex b}:{if ok then 1 else 0}"
   | .rename a b ok => s!"rn:{showPath a}:{showPath b}:{if ok then 1 else 0}"
   | .unlink p ok => s!"ul:{showPath p}:{if ok then 1 else 0}"
+  | .rmdir p => s!"rd:{showPath p}"
 
 def showStatus : UStatus → String
   | .s20 => "20" | .s40 => "40" | .s50 => "50" | .s51 => "51" | .s59 => "59" | .s60 => "60" | .raised => "raised"
@@ -70,7 +72,8 @@ def handle : List String → Option String
   | ["upload", mode, ts, cs, line, content, fault] =>
     match parseCfg cs, parseFault fault with
     | some c, some f =>
-      let os := treeOS (parseTree ts) []
+      let tr := parseTree ts
+      let os : UOS := { toOS := treeOS tr [], lexists := fun p => (tr.lstat p).isSome }
       let l := cpsChars line
       let b := unhexS content
       if mode == "direct" then
